@@ -249,6 +249,9 @@ def gen_crate_op(rng, st, allow_after=True, hostile=True):
         else:
             op = {"op": "create_sub_crate_after", "c": parent, "name": hx(name), "after": after, "as": h} if after else \
                  {"op": "create_sub_crate", "c": parent, "name": hx(name), "as": h}
+        if st.v2 and not invalid and not dup and after is None and rng.random() < 0.15:
+            # a crate row as another writer (Engine DJ) leaves it: not (yet) persisted, not exported
+            op = {"op": "foreign_crate", "name": hx(name), "c": parent, "persisted": rng.random() < 0.3, "exported": rng.random() < 0.5, "as": h}
         wrong_after = after is not None and st.crates[after]["parent"] != parent
         will_fail = invalid or (st.v2 and (dup or wrong_after))
         if not will_fail:
